@@ -1,5 +1,6 @@
 import SecsModel.Props.C17
 #print axioms SecsModel.Props.C17.handshake_bytes
+#print axioms SecsModel.Props.C17.send_message_waits
 #print axioms SecsModel.Props.C17.reach
 #print axioms SecsModel.Props.C17.bounded
 #print axioms SecsModel.Props.C17.delivery
